@@ -477,7 +477,7 @@ Proof.
     cbn [w_outnodes w_points w_cells w_k w_nodal w_cell w_spheres map fst].
     repeat split; try assumption; try apply Hcf.
     + repeat constructor. intros [].
-    + repeat constructor. left. split; [reflexivity | congruence].
+    + constructor; [| constructor]. left. split; [reflexivity | congruence].
 Qed.
 
 (* ------------------------------------------------------------------ what [check] means *)
